@@ -357,6 +357,8 @@ class LoaderConc(Engine):
                              "key %d: with the loader task parked before its marker removal, invalidate(%d); fetch_with(%d) returned at once with id %s and no loader run: "
                              "the call joined a load that was already completed (callers released while the future is still registered as in flight)" % (k, k, k, sorted(ids))))
             if runs.get(k, 0) == 1 and len(ids) == 1:
+                hits.append(("C11:removed-value-returned",
+                             "key %d: fetch_with; invalidate (completed); fetch_with returned the invalidated value id %s (resurrection of a removed value)" % (k, sorted(ids))))
                 hits.append(("C15:stale-join-after-invalidate",
                              "key %d: fetch_with; invalidate; fetch_with -- the miss after the invalidation returned the invalidated id %s and the loader ran %d time(s) instead of 2" % (
                                  k, sorted(ids), runs.get(k, 0))))
